@@ -1089,3 +1089,22 @@ func verifRoundTripNextHop(a *PathAttributeNextHop) bool {
 //@ func (*PathAttributePmsiTunnel).MarshalJSON
 //@   requires p != nil && p.TunnelID != nil
 //@   claims nil
+
+// =============================================================================================
+// C04 - clauses from the fourth review round: what an encoder writes is what its decoder reads back
+// =============================================================================================
+//@ props C04
+// the two flags of the EVPN Multicast Flags community are independent bits (RFC 9251 9.5): each is written iff set
+//@ func (*MulticastFlagsExtended).Serialize
+//@   requires e != nil
+//@   claims at-return
+//@   at-return requires int(ret0[3]) == (e.IsIGMPProxy ? 1 : 0) + (e.IsMLDProxy ? 2 : 0)
+// the SRv6 Binding SID sub-TLV carries the whole SID: the window it is copied into is as long as the SID
+//@ func (*TunnelEncapSubTLVSRv6BSID).Serialize
+//@   claims at-call
+//@   at-call copy(buf[2: requires len(arg0) >= len(arg1)
+// the IP Reachability TLV of a prefix descriptor holds the minimum number of octets for the prefix length (RFC 7752
+// 3.2.3.2) - none for a /0, which is what the decoder accepts
+//@ func NewLsPrefixTLVs
+//@   claims at-call
+//@   at-call ^append(lsTLVs, &LsTLVIPReachability requires lenIpPrefix*8 >= prefixSize && lenIpPrefix*8 < prefixSize + 8
